@@ -700,6 +700,11 @@ PROFILES = {
     'reverse': 3, 'meta_col': 6, 'meta_table': 2, 'meta_rmcol': 3, 'meta_rmtable': 2, 'meta_rmfield': 2,
     'rawtitle': 2, 'displaycol': 2, 'rule': 2, 'trigger': 2, 'choices': 1, 'copyfrom': 1, 'bad': 3,
   },
+  # type changes of columns that formulas, summary tables and two-way references depend on
+  'typechange': {
+    'add': 8, 'update': 6, 'remove': 2, 'addcol': 3, 'addfcol': 8, 'addref': 3, 'modtype': 14, 'modformula': 2,
+    'toggle': 3, 'summary': 4, 'reverse': 2, 'meta_col': 3, 'rmcol': 1, 'copyfrom': 2,
+  },
   'records': {
     'add': 12, 'update': 12, 'remove': 6, 'replace': 1, 'addcol': 1, 'addfcol': 2, 'bad': 1,
   },
